@@ -26,6 +26,7 @@ import IsoVerif.Driver.C11
 import IsoVerif.Driver.C01
 import IsoVerif.Driver.C04
 import IsoVerif.Driver.C04Sim
+import IsoVerif.Driver.C04Split
 
 namespace IsoVerif.Driver
 
@@ -60,5 +61,6 @@ def allOps : List (String × Handler) :=
   ++ prefixOps "C01" C01.ops
   ++ prefixOps "C04" C04.ops
   ++ prefixOps "C04" C04Sim.ops
+  ++ prefixOps "C04" C04Split.ops
 
 end IsoVerif.Driver
